@@ -14,10 +14,10 @@ ENGINE = 'E2 solo'
 TECHNIQUE = ('property-based testing: generated API call programs, output parsed by an independent strict frame '
              'codec and compared with the abstract frame list each call specifies')
 RULE = ('cases: programs (4..25 calls) in both roles after initiate_connection, peer SETTINGS announcing '
-        'MAX_FRAME_SIZE in {2^14, 2^14+1, 2^15, 40000, 2^24-1} and HEADER_TABLE_SIZE; calls: send_headers (with and '
+        'MAX_FRAME_SIZE in {2^14, 2^14+1, 2^15, 40000, 2^24-1} and HEADER_TABLE_SIZE, and changing MAX_FRAME_SIZE again later while streams are open or reserved; calls: send_headers (with and '
         'without priority weight/dependency/exclusive, END_STREAM; header lists sized by construction - measured on a '
         'shadow hpack.Encoder - to land within +-6 bytes of k x MAX_FRAME_SIZE), send_data (pad None/0..255), '
-        'end_stream, push_stream, prioritize, ping, reset_stream, increment_flow_control_window, update_settings, '
+        'end_stream, push_stream and the response on the promised stream, prioritize, ping, reset_stream, increment_flow_control_window, update_settings, '
         'advertise_alternative_service, close_connection; non-trivial = a call that produced >= 2 frames, used '
         'priority or padding, or whose block is within 6 bytes of a frame-size multiple; distinct by trace')
 ASSUMPTIONS = ['the shadow encoder used to size header lists is hpack.Encoder (trusted base) fed the same lists']
@@ -86,6 +86,7 @@ def run_case(data):
     next_peer = 1
     can_send = []        # streams on which we may send data
     awaiting = []        # server: streams needing response headers
+    promised = []        # server: promised streams still reserved (local)
     closed = False
     nontrivial = False
 
@@ -178,8 +179,46 @@ def run_case(data):
         if r.violations or closed:
             break
         op = ch.weighted([(6, 'headers'), (5, 'data'), (2, 'end'), (2, 'push'), (2, 'prioritize'), (2, 'ping'),
-                          (2, 'rst'), (2, 'wu'), (2, 'settings'), (2, 'altsvc'), (1, 'goaway'), (2, 'trailers')])
-        if op == 'headers':
+                          (2, 'rst'), (2, 'wu'), (2, 'settings'), (2, 'altsvc'), (1, 'goaway'), (2, 'trailers'),
+                          (2, 'peer-mfs'), (2, 'answer-push')])
+        if op == 'peer-mfs':
+            # the peer announces a new MAX_FRAME_SIZE: every later frame on every stream, including
+            # streams that exist already (open or reserved), must respect it
+            new = ch.pick([16384, 16385, 32768, 40000, 2**24 - 1, 16384])
+            o = s.feed(wire.settings([(wire.S_MAX_FRAME_SIZE, new)]))
+            r.step('recv SETTINGS MAX_FRAME_SIZE', new, o.brief())
+            if not o.ok:
+                r.violate('C02:harness:settings-rejected', o.brief())
+                break
+            s.note_peer_settings([(wire.S_MAX_FRAME_SIZE, new)])
+            if new < mfs and (can_send or promised):
+                r.labels.add('max-frame-size-lowered-with-streams')
+            mfs = new
+            expect_frames(o, [{'t': wire.SETTINGS, 'sid': 0, 'fl': wire.F_ACK}], 'settings-ack')
+        elif op == 'answer-push':
+            if not promised:
+                continue
+            sid = promised.pop(ch.int(0, len(promised) - 1))
+            base = [(b':status', b'200'), (b'x-n', b'%d' % stepno)]
+            if ch.chance(160) and mfs <= 40000:
+                hdrs = sized_headers(ch, shadow, base, mfs + ch.int(-6, 6))
+            else:
+                hdrs = base + [(b'x-small', b'v' * ch.int(0, 40))]
+            end = ch.chance(48)
+            o = s.call('send_headers', sid, hdrs, end_stream=end)
+            r.step('send_headers (pushed response)', sid, 'filler', len(hdrs[-1][1]), 'end', end, o.brief(),
+                   [(f.name, f.length) for f in o.frames])
+            if not o.ok:
+                r.violate('C02:valid-send_headers-refused:pushed:%s' % o.exc_name, repr(o.exc)[:200])
+                if o.out:
+                    r.violate('C02:refused-call-emitted:send_headers:%s' % o.exc_name,
+                              repr([(f.name, f.length) for f in o.frames]))
+                break
+            header_call('send_headers', o, sid, hdrs, end, None)
+            r.labels.add('pushed-response')
+            if not end:
+                can_send.append(sid)
+        elif op == 'headers':
             if client:
                 sid = next_local
                 next_local += 2
@@ -302,6 +341,7 @@ def run_case(data):
                     r.violate('C02:refused-call-emitted:push_stream:%s' % o.exc_name, '')
                 break
             header_call('push_stream', o, parent, hdrs, False, None, promised=pid)
+            promised.append(pid)
         elif op == 'prioritize':
             if not client:
                 continue
